@@ -140,6 +140,20 @@ pub fn run(tier: Tier) -> ! {
         report(&['x', 'y'], &[2], &[vec![None, Some(gen::s(text))], vec![]]);
     });
     chk.set("enriched_texts", json!(texts_e.len()));
+    // (a'') every Unicode scalar value (NUL excluded) as text and as tag, alone and between ordinary characters
+    {
+        let all: Vec<char> = (1u32..=0x10FFFF).filter_map(char::from_u32).collect();
+        chk.set("all_scalar_values", json!(all.len()));
+        all.par_iter().for_each(|&c| {
+            let t = Some(c.to_string());
+            report(&[c], &[], &[vec![t.clone()]]);
+            if tier == Tier::Thorough || (c as u32) < 0x3100 || (c as u32) % 7 == 0 {
+                for l in 0..3u8 {
+                    report(&['a', c, 'b'], &[l, (l + 1) % 3], &[vec![t.clone()], vec![None, t.clone()], vec![]]);
+                }
+            }
+        });
+    }
     // (b) reduced text alphabet x all labels x <=1 tag on every character
     let l1 = lists(&tagpool, 1);
     let texts_b = gen::strings(&['a', '-', '/'], 1, tier.pick(3, 4));
